@@ -1205,7 +1205,7 @@ class LogixDriver(CIPDriver):
                     self._sequence,
                     parsed_tag["plc_tag"],
                     parsed_tag["tag_info"],
-                    -1,
+                    -1 * (1 + parsed_tag["request_id"]),  # unique per request, like the multi-request path
                     self._cfg["use_instance_ids"],
                 )
 
